@@ -202,6 +202,12 @@ def unionOKB (w : World) (cs : List Nat) : Bool :=
   && Disambig.deepOk Disambig.SetOrder.id w.table cs.length cs
   && cs.all (fun c => (w.fields c).all (fun f => match f.ty with | some (.lit _) => f.init | _ => true))
 
+theorem unionOKB_notNT {w : World} {cs : List Nat} (h : unionOKB w cs = true) {c : Nat} (hc : c ∈ cs) :
+    w.isNT c = false := by
+  unfold unionOKB at h
+  simp only [Bool.and_eq_true] at h
+  exact unionMembersOk_notNT h.1.1.2 hc
+
 mutual
 /-- every union inside the type is in the round-trip scope; under the tuple strategy (`tup`) no union is: the
 decision function only accepts mappings -/
@@ -252,7 +258,8 @@ theorem noUnion_unionsOK (w : World) (tup : Bool) : ∀ t : Ty, t.noUnion = true
       exact ⟨noUnion_unionsOK w tup kt h.1, noUnion_unionsOK w tup vt h.2⟩
   | .opt t, h => by simp only [Ty.noUnion] at h; simp only [Ty.unionsOK]; exact noUnion_unionsOK w tup t h
   | .wrap _ t, h => by simp only [Ty.noUnion] at h; simp only [Ty.unionsOK]; exact noUnion_unionsOK w tup t h
-  | .any, _ | .int, _ | .float, _ | .str, _ | .bytes, _ | .bool, _ | .enum _, _ | .lit _, _ | .cls _, _ | .td _, _ => by
+  | .any, _ | .int, _ | .float, _ | .str, _ | .bytes, _ | .bool, _ | .enum _, _ | .lit _, _ | .cls _, _ | .td _, _
+  | .nt _, _ => by
       simp [Ty.unionsOK]
 theorem noUnionL_unionsOKL (w : World) (tup : Bool) : ∀ ts : List Ty, Ty.noUnionL ts = true → Ty.unionsOKL w tup ts = true
   | [], _ => by simp [Ty.unionsOKL]
@@ -351,7 +358,10 @@ theorem un_ne_none (td : Bool) (hg : cfg.gen = true) (hwe : w.WFE) :
   | .union cs hn, x, _, hc, hx => by
       cases x <;> simp [conf] at hc
       · exact absurd rfl hx
-      · simp only [un, unAny]; split <;> simp
+      · simp only [un, unAny]; split <;> (try split) <;> simp
+  | .nt c, x, _, hc, _ => by
+      cases x <;> simp [conf] at hc
+      simp [un]
 
 end CattrsModel
 
@@ -446,7 +456,7 @@ theorem un_hp (td : Bool) (hg : cfg.gen = true) (hwe : w.WFE) :
         simp only [un, hg, Bool.true_or, if_true] at h
         exact ih.2 a b (by simpa [conf] using ha) (by simpa [conf] using hb) h
   | .any, hp, _ | .coll _ _, hp, _ | .tupleHet _, hp, _ | .map _ _ _, hp, _ | .cls _, hp, _ | .td _, hp, _
-  | .union _ _, hp, _ => by
+  | .union _ _, hp, _ | .nt _, hp, _ => by
       simp [Ty.hashPrim] at hp
 
 end CattrsModel
